@@ -45,7 +45,7 @@ Section Fields.
     | Some (t0 :: rest) =>
         mk_gfield (f_name f) (OText (rendered_ref t0))
                   (match rest with [] => f_tag f | _ => join_with ch_space rest end)
-    | _ => mk_gfield (f_name f) (fst (type_lit L target c (f_ty f))) (f_tag f)
+    | _ => mk_gfield (f_name f) (fst (field_type_lit L target c (f_ty f))) (f_tag f)
     end.
 
   Definition retained (omit : list bytes) (f : field) : bool := negb (omitted omit (f_name f)).
@@ -64,7 +64,7 @@ Section Fields.
     - rewrite render_tag_fixed. unfold rendered_ref.
       destruct (id_string L target t0) as [rt ri| |]; try discriminate.
       intros H. inversion H. reflexivity.
-    - destruct (type_lit L target c (f_ty f)) as [o ti] eqn:Et. rewrite render_tag_fixed.
+    - destruct (field_type_lit L target c (f_ty f)) as [o ti] eqn:Et. rewrite render_tag_fixed.
       intros H. inversion H. reflexivity.
   Qed.
 
@@ -131,7 +131,7 @@ Section Fields.
             assert (Hr : ref_modelled t0 = true).
             { eapply Hm; [left; reflexivity| |exact El]. unfold retained. rewrite Eo. reflexivity. }
             unfold ref_modelled in Hr. destruct (id_string L target t0); try discriminate. eauto.
-          - destruct (type_lit L target c (f_ty f)). rewrite render_tag_fixed. eauto. }
+          - destruct (field_type_lit L target c (f_ty f)). rewrite render_tag_fixed. eauto. }
         destruct Hg as [g [i Hg]]. rewrite Hg. apply IH; assumption.
   Qed.
 End Fields.
@@ -169,6 +169,7 @@ Section Types.
     | TError => false
     | TPtr e | TSlice e | TArray _ e => no_error e
     | TMap k v => no_error k && no_error v
+    | TAlias _ _ r => no_error r
     | _ => true
     end.
 
@@ -178,7 +179,7 @@ Section Types.
       imported t ->
       denotes imps target (fst (type_lit L target c t)) t = true.
   Proof.
-    induction t as [n| | |pkg name u ms|e IH|e IH|n e IH|k IHk v IHv|txt]; intros Herr Hif Himp; cbn [type_lit].
+    induction t as [n| | |pkg name u ms|e IH|e IH|n e IH|k IHk v IHv|txt|ap an ar IHa]; intros Herr Hif Himp; cbn [type_lit].
     - cbn. apply bytes_eqb_refl.
     - cbn. reflexivity.
     - destruct Herr as [Herr|Herr]; [|cbn in Herr; discriminate]. rewrite Herr. cbn. reflexivity.
@@ -211,6 +212,31 @@ Section Types.
         * exact Hifv.
         * intros p Hp. apply Himp. cbn. apply in_or_app. right. exact Hp.
     - cbn in Hif. discriminate.
+    - cbn [denotes]. rewrite IHa; [apply orb_true_r| | |].
+      + destruct Herr as [H|H]; [left; exact H|right; exact H].
+      + exact Hif.
+      + exact Himp.
+  Qed.
+
+  (* a field's type: an alias at the top level is printed by its own name, which denotes it; below the top level it is
+     printed through its right-hand side - the same type *)
+  Definition fimported (t : ty) : Prop :=
+    forall p, In p (fty_pkgs t) -> bytes_eqb p target = false -> In (p, L p) imps.
+
+  Lemma field_type_lit_denotes : forall t,
+      (fx_errlit c = true \/ no_error t = true) ->
+      fhas_iface_lit t = false ->
+      fimported t ->
+      denotes imps target (fst (field_type_lit L target c t)) t = true.
+  Proof.
+    intros t Herr Hif Himp.
+    destruct t as [n| | |pkg name u ms|e|e|n e|k v|txt|ap an ar];
+      try (apply type_lit_denotes; assumption).
+    cbn [field_type_lit denotes]. apply orb_true_iff. left.
+    destruct (bytes_eqb ap target) eqn:Ep; cbn [fst denotes_ref].
+    - rewrite Ep, bytes_eqb_refl. reflexivity.
+    - rewrite Ep, bytes_eqb_refl. cbn [negb andb].
+      rewrite resolve_L; [cbn; apply bytes_eqb_refl|]. apply Himp; [cbn; left; reflexivity|exact Ep].
   Qed.
 
   (* known finding unnamed_method_interface_rendered_any: TypeLit prints `any`, which does not denote the type *)
@@ -222,25 +248,34 @@ Section Types.
   Lemma type_lit_imports : forall t,
       snd (type_lit L target c t) = filter (fun p => negb (bytes_eqb p target)) (ty_pkgs t).
   Proof.
-    induction t as [n| | |pkg name u ms|e IH|e IH|n e IH|k IHk v IHv|txt]; cbn [type_lit ty_pkgs filter]; try reflexivity.
+    induction t as [n| | |pkg name u ms|e IH|e IH|n e IH|k IHk v IHv|txt|ap an ar IHa]; cbn [type_lit ty_pkgs filter]; try reflexivity.
     - destruct (bytes_eqb pkg target); reflexivity.
     - destruct (type_lit L target c e). exact IH.
     - destruct (type_lit L target c e). exact IH.
     - destruct (type_lit L target c e). exact IH.
     - destruct (type_lit L target c k). destruct (type_lit L target c v). cbn [snd] in *.
       rewrite filter_app, IHk, IHv. reflexivity.
+    - exact IHa.
+  Qed.
+
+  Lemma field_type_lit_imports : forall t,
+      snd (field_type_lit L target c t) = filter (fun p => negb (bytes_eqb p target)) (fty_pkgs t).
+  Proof.
+    intros t. destruct t as [n| | |pkg name u ms|e|e|n e|k v|txt|ap an ar]; try apply type_lit_imports.
+    cbn [field_type_lit fty_pkgs filter]. destruct (bytes_eqb ap target); reflexivity.
   Qed.
 
   Lemma type_lit_quals : forall t,
       oty_quals (fst (type_lit L target c t)) = map L (filter (fun p => negb (bytes_eqb p target)) (ty_pkgs t)).
   Proof.
-    induction t as [n| | |pkg name u ms|e IH|e IH|n e IH|k IHk v IHv|txt]; cbn [type_lit ty_pkgs filter]; try reflexivity.
+    induction t as [n| | |pkg name u ms|e IH|e IH|n e IH|k IHk v IHv|txt|ap an ar IHa]; cbn [type_lit ty_pkgs filter]; try reflexivity.
     - destruct (bytes_eqb pkg target); reflexivity.
     - destruct (type_lit L target c e). exact IH.
     - destruct (type_lit L target c e). exact IH.
     - destruct (type_lit L target c e). exact IH.
     - destruct (type_lit L target c k). destruct (type_lit L target c v). cbn [fst oty_quals] in *.
       rewrite filter_app, map_app, IHk, IHv. reflexivity.
+    - exact IHa.
   Qed.
 End Types.
 
@@ -255,6 +290,17 @@ Section Copy.
 
   Definition is_replaced (repl : list (bytes * list bytes)) (f : field) : bool :=
     match lookup (f_name f) repl with Some _ => true | None => false end.
+
+  (* the type the switch of createFieldSnippet runs on: the field's own type, or the named type (error included) it is
+     an alias of *)
+  Lemma switch_type_spec : forall ua t,
+      switch_type ua t = t \/ (exists p n u ms, switch_type ua t = TNamed p n u ms) \/ switch_type ua t = TError.
+  Proof.
+    intros [|] t; [|left; reflexivity]. unfold switch_type.
+    destruct (unalias t); try (left; reflexivity).
+    - right. right. reflexivity.
+    - right. left. eauto.
+  Qed.
 
   Lemma gen_stmts_loop_spec : forall omit repl fs acc imps ss i,
       gen_stmts_loop L target c omit repl fs acc imps = GOk ss i ->
@@ -299,8 +345,8 @@ Section Copy.
                                  stmt_field s = f_name f /\ is_other s = false).
     { intros fc i0 H. assert (Hs : s = select_named (f_name f) fc) by congruence.
       rewrite Hs. apply select_named_field. }
-    unfold field_stmt.
-    destruct (f_ty f) as [n| | |pkg name u ms|e|e|n e|k v|txt] eqn:Et.
+    unfold field_stmt, field_stmt_gen. cbv zeta.
+    destruct (switch_type true (f_ty f)) as [n| | |pkg name u ms|e|e|n e|k v|txt|ap an ar] eqn:Et.
     - intros H; inversion H; split; reflexivity.
     - intros H; inversion H; split; reflexivity.
     - destruct b; [apply Hsel|].
@@ -312,6 +358,7 @@ Section Copy.
     - destruct (type_lit L target c (TSlice e)). intros H; inversion H; split; reflexivity.
     - intros H; inversion H; split; reflexivity.
     - destruct (type_lit L target c (TMap k v)). intros H; inversion H; split; reflexivity.
+    - intros H; inversion H; split; reflexivity.
     - intros H; inversion H; split; reflexivity.
   Qed.
 
@@ -539,22 +586,29 @@ Section Scoping.
     assert (Hsel : forall fc i0, GOk (select_named (f_name f) fc) i0 = GOk s j -> stmt_quals s = []).
     { intros fc i0 H. assert (Hs : s = select_named (f_name f) fc) by congruence.
       rewrite Hs. apply select_named_quals. }
-    unfold field_stmt.
-    destruct (f_ty f) as [n| | |pkg name u ms|e|e|n e|k v|txt] eqn:Et.
-    - intros H; inversion H; left; reflexivity.
-    - intros H; inversion H; left; reflexivity.
+    unfold field_stmt, field_stmt_gen. cbv zeta.
+    destruct (switch_type_spec true (f_ty f)) as [Hs|[[p0 [n0 [u0 [ms0 Hs]]]]|Hs]]; rewrite Hs.
+    - destruct (f_ty f) as [n| | |pkg name u ms|e|e|n e|k v|txt|ap an ar] eqn:Et.
+      + intros H; inversion H; left; reflexivity.
+      + intros H; inversion H; left; reflexivity.
+      + destruct b; [intros H; left; eapply Hsel; exact H|].
+        destruct (fx_errnil c); [|discriminate]. intros H; inversion H; left; reflexivity.
+      + destruct b; [intros H; left; eapply Hsel; exact H|].
+        destruct (scan_methods ms (false, false, true)) as [[hc hi] ptr].
+        destruct (bytes_eqb pkg target && negb (is_uiface u)); intros H; left; eapply Hsel; exact H.
+      + intros H; inversion H; left; reflexivity.
+      + destruct (type_lit L target c (TSlice e)) as [o oi] eqn:El. intros H; inversion H. right.
+        split; reflexivity.
+      + intros H; inversion H; left; reflexivity.
+      + destruct (type_lit L target c (TMap k v)) as [o oi] eqn:El. intros H; inversion H. right.
+        split; reflexivity.
+      + intros H; inversion H; left; reflexivity.
+      + intros H; inversion H; left; reflexivity.
+    - destruct b; [intros H; left; eapply Hsel; exact H|].
+      destruct (scan_methods ms0 (false, false, true)) as [[hc hi] ptr].
+      destruct (bytes_eqb p0 target && negb (is_uiface u0)); intros H; left; eapply Hsel; exact H.
     - destruct b; [intros H; left; eapply Hsel; exact H|].
       destruct (fx_errnil c); [|discriminate]. intros H; inversion H; left; reflexivity.
-    - destruct b; [intros H; left; eapply Hsel; exact H|].
-      destruct (scan_methods ms (false, false, true)) as [[hc hi] ptr].
-      destruct (bytes_eqb pkg target && negb (is_uiface u)); intros H; left; eapply Hsel; exact H.
-    - intros H; inversion H; left; reflexivity.
-    - destruct (type_lit L target c (TSlice e)) as [o oi] eqn:El. intros H; inversion H. right.
-      split; reflexivity.
-    - intros H; inversion H; left; reflexivity.
-    - destruct (type_lit L target c (TMap k v)) as [o oi] eqn:El. intros H; inversion H. right.
-      split; reflexivity.
-    - intros H; inversion H; left; reflexivity.
   Qed.
 
   Lemma gen_stmts_quals : forall omit repl fs acc imps ss i q,
@@ -636,7 +690,7 @@ Section Main.
   (* an unreplaced field keeps name, type (as rendered by TypeLit) and tag *)
   Lemma apply_replace_unreplaced : forall repl f,
       lookup (f_name f) repl = None ->
-      apply_replace L target c repl f = mk_gfield (f_name f) (fst (type_lit L target c (f_ty f))) (f_tag f).
+      apply_replace L target c repl f = mk_gfield (f_name f) (fst (field_type_lit L target c (f_ty f))) (f_tag f).
   Proof. intros repl f H. unfold apply_replace. rewrite H. reflexivity. Qed.
 
   (* a replaced field keeps its name; type text = the replacement; tag = the words after the type, if any *)
@@ -657,7 +711,8 @@ Section Main.
     destruct (omitted omit (f_name f)); [apply IH; exact He|].
     assert (Hs : exists s j, field_stmt L target c
                    (match lookup (f_name f) repl with Some _ => true | None => false end) f = GOk s j).
-    { unfold field_stmt. destruct (f_ty f) as [n| | |pkg name u ms|e|e|n e|k v|txt]; eauto.
+    { unfold field_stmt, field_stmt_gen. cbv zeta.
+      destruct (switch_type true (f_ty f)) as [n| | |pkg name u ms|e|e|n e|k v|txt|ap an ar]; eauto.
       - destruct (match lookup (f_name f) repl with Some _ => true | None => false end); eauto.
         rewrite He. eauto.
       - destruct (match lookup (f_name f) repl with Some _ => true | None => false end); eauto.
@@ -739,19 +794,25 @@ Section Main.
   (* which statements convert: an unreplaced field whose type is not a named type is assigned or container-copied *)
   Lemma unreplaced_not_call : forall f s j,
       field_stmt L target c false f = GOk s j ->
-      (forall pkg name u ms, f_ty f <> TNamed pkg name u ms) ->
+      (forall pkg name u ms, unalias (f_ty f) <> TNamed pkg name u ms) ->
       is_call s = false.
   Proof.
-    intros f s j H Hn. unfold field_stmt in H.
-    destruct (f_ty f) as [n| | |pkg name u ms|e|e|n e|k v|txt] eqn:Et.
+    intros f s j H Hn. unfold field_stmt, field_stmt_gen in H. cbv zeta in H.
+    assert (Hn' : forall pkg name u ms, switch_type true (f_ty f) <> TNamed pkg name u ms).
+    { intros pkg name u ms E. unfold switch_type in E.
+      destruct (unalias (f_ty f)) as [n| | |pkg' name' u' ms'|e|e|n e|k v|txt|ap an ar] eqn:Eu;
+        try (rewrite E in Eu; cbn [unalias] in Eu; discriminate Eu); try discriminate E.
+      eapply Hn. reflexivity. }
+    destruct (switch_type true (f_ty f)) as [n| | |pkg name u ms|e|e|n e|k v|txt|ap an ar] eqn:Et.
     - inversion H; reflexivity.
     - inversion H; reflexivity.
     - destruct (fx_errnil c); [|discriminate]. inversion H; reflexivity.
-    - exfalso. eapply Hn. reflexivity.
+    - exfalso. eapply Hn'. reflexivity.
     - inversion H; reflexivity.
     - destruct (type_lit L target c (TSlice e)). inversion H; reflexivity.
     - inversion H; reflexivity.
     - destruct (type_lit L target c (TMap k v)). inversion H; reflexivity.
+    - inversion H; reflexivity.
     - inversion H; reflexivity.
   Qed.
 
@@ -774,24 +835,43 @@ Section Main.
   Qed.
 
   Lemma foreign_plain_named_assigned : forall f pkg name u ms s j,
-      f_ty f = TNamed pkg name u ms ->
+      unalias (f_ty f) = TNamed pkg name u ms ->
       bytes_eqb pkg target = false ->
       no_as_methods ms = true ->
       field_stmt L target c false f = GOk s j ->
       s = SAssign (f_name f).
   Proof.
-    intros f pkg name u ms s j Et Hp Hm H. unfold field_stmt in H. rewrite Et in H.
-    rewrite (scan_no_as ms false false true Hm) in H. rewrite Hp in H.
+    intros f pkg name u ms s j Et Hp Hm H. unfold field_stmt, field_stmt_gen, switch_type in H. rewrite Et in H.
+    cbv zeta in H. rewrite (scan_no_as ms false false true Hm) in H. rewrite Hp in H.
     destruct ms; inversion H; reflexivity.
   Qed.
 
   (* a replaced field of a named type is converted by the replacement's DeepCopyIntoAs *)
   Lemma replaced_named_into : forall f pkg name u ms s j,
-      f_ty f = TNamed pkg name u ms ->
+      unalias (f_ty f) = TNamed pkg name u ms ->
       field_stmt L target c true f = GOk s j ->
       s = SCallInto (f_name f) dc_into_name.
   Proof.
-    intros f pkg name u ms s j Et H. unfold field_stmt in H. rewrite Et in H. inversion H. reflexivity.
+    intros f pkg name u ms s j Et H. unfold field_stmt, field_stmt_gen, switch_type in H. rewrite Et in H.
+    inversion H. reflexivity.
+  Qed.
+
+  (* before the repair C18-replace-on-alias-field: a replaced field whose type is an alias of a named struct was assigned *)
+  Lemma replaced_alias_refuted_before_fix : forall f p n r,
+      f_ty f = TAlias p n r ->
+      field_stmt_gen L target c false true f = GOk (SAssign (f_name f)) [].
+  Proof. intros f p n r Et. unfold field_stmt_gen, switch_type. rewrite Et. reflexivity. Qed.
+
+  (* an alias of anything but a named type is assigned, replaced or not (the switch has no case for *types.Alias) *)
+  Lemma alias_field_assigned : forall b f p n r,
+      f_ty f = TAlias p n r ->
+      (forall pkg name u ms, unalias r <> TNamed pkg name u ms) -> unalias r <> TError ->
+      field_stmt L target c b f = GOk (SAssign (f_name f)) [].
+  Proof.
+    intros b f p n r Et Hn He. unfold field_stmt, field_stmt_gen, switch_type. rewrite Et. cbn [unalias].
+    destruct (unalias r) eqn:Eu; try reflexivity.
+    - exfalso. apply He. reflexivity.
+    - exfalso. eapply Hn. reflexivity.
   Qed.
 
   (* ---- origin of the type's own spec ---- *)
